@@ -69,7 +69,7 @@ OUTCOMES = ["value", "caught", "subcaught", "other", "cancelled", "base", "badst
 def programs(tier: str):
     for limit in BOUNDS[tier]["limits"]:
         for catching in ("default", "class", "tuple", "set"):
-            for delay in ("none", "int", "float", "fn"):
+            for delay in ("none", "int", "float", "fn", "zero", "zerof"):
                 for mode in ("sync", "async"):
                     for scoped in (False, True):
                         yield {
@@ -215,6 +215,10 @@ def execute(program, ch: Chooser) -> Result:  # noqa: C901, PLR0912, PLR0915
         kwargs["delay"] = 0.5
     elif delay == "fn":
         kwargs["delay"] = delay_fn
+    elif delay == "zero":
+        kwargs["delay"] = 0
+    elif delay == "zerof":
+        kwargs["delay"] = 0.0
 
     got: dict = {}
     loop = VLoop()
@@ -306,7 +310,7 @@ def execute(program, ch: Chooser) -> Result:  # noqa: C901, PLR0912, PLR0915
         retries = len(calls) - 1
         exp_pauses: list[float] = []
         for k in range(1, retries + 1):
-            exp_pauses.append({"none": 0.0, "int": 2.0, "float": 0.5, "fn": 0.25 * k}[delay])
+            exp_pauses.append({"none": 0.0, "int": 2.0, "float": 0.5, "fn": 0.25 * k, "zero": 0.0, "zerof": 0.0}[delay])
         if len(calls) == exp_calls:
             deltas = [calls[i + 1]["t"] - calls[i]["t"] for i in range(retries)]
             if deltas != exp_pauses:
